@@ -31,7 +31,7 @@ def dump_feature(o):
         fields["mu"] = f64(o.mu); fields["length_scale"] = f64(o.length_scale)
     elif isinstance(o, gt_approx.LSEMGaussianConditional):
         kind = "lsem"
-        fields["W"] = f64(o.W); fields["w0"] = f64(o.w0)
+        fields["W"] = f64(o.W)[:, -o.Dx:]; fields["w0"] = f64(o.w0)   # weights without the offset column
         fields["k_v"] = f64(k.v); fields["k_g"] = f64(k.g)
     else:
         raise TypeError(f"cannot dump {type(o)}")
